@@ -81,7 +81,7 @@ func readPaths(text string, delivery int) map[string]string {
 			return "", err
 		}
 		var ps []control.Paragraph
-		for i := 0; i < 1000; i++ {
+		for i := 0; i < 100000; i++ {
 			p, err := pr.Next()
 			if err == io.EOF {
 				return canonParas(ps), nil
@@ -91,7 +91,7 @@ func readPaths(text string, delivery int) map[string]string {
 			}
 			ps = append(ps, *p)
 		}
-		return "", fmt.Errorf("no end of input after 1000 paragraphs")
+		return "", fmt.Errorf("no end of input after 100000 paragraphs")
 	})
 	guard("all", func() (string, error) {
 		pr, err := control.NewParagraphReader(rd(), nil)
@@ -135,7 +135,7 @@ func readPaths(text string, delivery int) map[string]string {
 			return "", err
 		}
 		var ps []control.Paragraph
-		for i := 0; i < 1000; i++ {
+		for i := 0; i < 100000; i++ {
 			var x PT // a fresh value per paragraph: like encoding/json, Decode leaves members alone whose field is absent
 			err := dec.Decode(&x)
 			if err == io.EOF {
@@ -149,7 +149,7 @@ func readPaths(text string, delivery int) map[string]string {
 			}
 			ps = append(ps, x.Paragraph)
 		}
-		return "", fmt.Errorf("no end of input after 1000 paragraphs")
+		return "", fmt.Errorf("no end of input after 100000 paragraphs")
 	})
 	guard("decoder-loop", func() (string, error) {
 		dec, err := control.NewDecoder(rd(), nil)
@@ -157,7 +157,7 @@ func readPaths(text string, delivery int) map[string]string {
 			return "", err
 		}
 		var ps []control.Paragraph
-		for i := 0; i < 1000; i++ {
+		for i := 0; i < 100000; i++ {
 			var x P
 			err := dec.Decode(&x)
 			if err == io.EOF {
@@ -168,7 +168,7 @@ func readPaths(text string, delivery int) map[string]string {
 			}
 			ps = append(ps, x.Paragraph)
 		}
-		return "", fmt.Errorf("no end of input after 1000 paragraphs")
+		return "", fmt.Errorf("no end of input after 100000 paragraphs")
 	})
 	for j := 1; j <= 3; j++ {
 		j := j
@@ -272,7 +272,7 @@ func checkInvariant(scen string, in RawIn) (vs []*mc.Violation, class string) {
 		return nil, "open-error"
 	}
 	n := 0
-	for i := 0; i < 1000; i++ {
+	for i := 0; i < 100000; i++ {
 		var p *control.Paragraph
 		if pn, msg := mc.Guard(func() { p, err = pr.Next() }); pn {
 			return []*mc.Violation{mc.V(scen, "reader-returns", in, "no panic", msg, rawFeatures(in.Text)...)}, "panic"
@@ -465,6 +465,50 @@ func Run(r *mc.Run) {
 		}
 		run("two-deviations-thin-base", thin, 2)
 	}
+
+	// documents larger than the products reach: many paragraphs, many fields in a paragraph, many continuation lines
+	var largeDocs []gen.DDoc
+	for _, n := range []int{10, 16, 17, 64, 65, 100, 257, 1000} {
+		var d gen.DDoc
+		for i := 0; i < n; i++ {
+			d = append(d, repParas[i%len(repParas)])
+		}
+		largeDocs = append(largeDocs, d)
+		var p gen.DPara
+		reps := gen.D822RepFields("F")
+		for i := 0; i < n && i < 300; i++ {
+			f := reps[i%len(reps)]
+			f.Name = fmt.Sprintf("Field-%d", i)
+			p = append(p, f)
+		}
+		largeDocs = append(largeDocs, gen.DDoc{p}, gen.DDoc{repParas[1], p, repParas[2]})
+		f := gen.DField{Name: "Description", First: "short"}
+		for i := 0; i < n; i++ {
+			f.Cont = append(f.Cont, gen.D822ContLines[i%len(gen.D822ContLines)])
+		}
+		largeDocs = append(largeDocs, gen.DDoc{gen.DPara{f, {Name: "After", First: "x"}}})
+	}
+	r.Scenario("large-documents", map[string]interface{}{"documents": len(largeDocs), "sizes": "10..1000 paragraphs, 10..300 fields in a paragraph, 10..1000 continuation lines", "renderings": "LF and CRLF, with and without final newline, three deliveries"}, len(largeDocs), func(i int, st *mc.Stats) bool {
+		d := largeDocs[i]
+		expected := gen.CanonRef(d.Ref())
+		for _, opt := range []gen.RenderOpt{{}, {CRLF: true}, {NoFinalNewline: true}, {BlankBetween: 2, BlankAfter: 1}} {
+			text := d.Render(opt)
+			for _, del := range []int{0, 2, -2} {
+				st.Evals++
+				st.Traces++
+				st.Nontrivial++
+				vs := checkWellFormed("large-documents", In{text, expected, del, nil})
+				if len(vs) == 0 {
+					st.Class("all-paths-exact")
+				}
+				for _, v := range vs {
+					st.Violate(v)
+					st.Class(v.Clause)
+				}
+			}
+		}
+		return true
+	})
 
 	// several readers alive at once, every interleaving of their calls
 	var inter []gen.DDoc
